@@ -168,4 +168,4 @@ def obligations():  # noqa: F811
     # calls stand on one line (shared with C13); READ targets are stored in READ order (shared with C05)
     from tx.p_c05 import share, read_targets_through_filter
     from tx import p_c13
-    return _c20_base() + filter_chain() + empty_item_protocol() + share("bundled/", p_c13.small_graphs() + p_c13.bundle_closed_through_convert()) + share("read/", read_targets_through_filter())
+    return _c20_base() + filter_chain() + empty_item_protocol() + share("bundled/", p_c13.small_graphs() + p_c13.bundle_closed_through_convert()) + share("read/", read_targets_through_filter()) + share("order/", __import__("tx.p_c05", fromlist=["x"]).call_order_through_convert())
